@@ -220,6 +220,32 @@ Theorem C12_solve_quadratic_roots : forall A B C x : R,
 Proof. exact solve_quadratic_roots. Qed.
 Print Assumptions C12_solve_quadratic_roots.
 
+(* the whole comprehension of roots(c, n) with normalize=True: n angles, radius 1, every one an n-th root of c/|c|
+   (cmath.polar / cmath.rect themselves are the numerical shell) *)
+Theorem C12_roots_list : forall (t : R) (n : nat),
+  List.length (m_roots_angles R RO t n) = n /\ m_root_radius_normalized R RO = 1 /\
+  forall th, In th (m_roots_angles R RO t n) -> cpow (cos th, sin th) n = (cos t, sin t).
+Proof. exact roots_list. Qed.
+Print Assumptions C12_roots_list.
+
+(* degenerate inputs (zero vectors, collinear points, parallel lines) *)
+Theorem C12_cotan_degenerate : forall a0 a1 a2 b0 b1 b2 c0 c1 c2 : R,
+  let u0 := a0 - b0 in let u1 := a1 - b1 in let u2 := a2 - b2 in
+  let v0 := c0 - b0 in let v1 := c1 - b1 in let v2 := c2 - b2 in
+  (u0 * u0 + u1 * u1 + u2 * u2 = 0 \/ v0 * v0 + v1 * v1 + v2 * v2 = 0 ->
+   g_cotan R RO [a0; a1; a2] [b0; b1; b2] [c0; c1; c2] = Raise FloatingPoint) /\
+  (u0 * u0 + u1 * u1 + u2 * u2 <> 0 -> v0 * v0 + v1 * v1 + v2 * v2 <> 0 ->
+   sumsq (g_cross R RO [u0; u1; u2] [v0; v1; v2]) = 0 ->
+   exists c, (c = 1 \/ c = -1) /\ g_cotan R RO [a0; a1; a2] [b0; b1; b2] [c0; c1; c2] = Ret (c / 0)).
+Proof. exact cotan_degenerate. Qed.
+Print Assumptions C12_cotan_degenerate.
+
+Theorem C12_circumcenter_degenerate : forall a0 a1 a2 b0 b1 b2 c0 c1 c2 : R,
+  sumsq (g_cross R RO [b0 - a0; b1 - a1; b2 - a2] [c0 - a0; c1 - a1; c2 - a2]) = 0 ->
+  g_circumcenter R RO [a0; a1; a2] [b0; b1; b2] [c0; c1; c2] = Raise FloatingPoint.
+Proof. exact circumcenter_degenerate. Qed.
+Print Assumptions C12_circumcenter_degenerate.
+
 (* ---------------------------------------------------------------- no side effects *)
 (* the event table regenerated from the five source files passes the purity check ... *)
 Theorem C12_fx_table_safe : table_ok fx_table = true.
